@@ -154,7 +154,9 @@ class LumpSystem:
         self.n, self.kind = n, kind
         self.scale_exp = scale_exp
         # power-of-two scaling keeps every sum exact; 2**-34 ~ 5.8e-11 puts all entries below absolute tolerances
-        self.M0 = base_matrix(n, kind) * (2.0 ** scale_exp)
+        self.M0 = base_matrix(n, kind) * (2.0 ** (0 if scale_exp == "int" else scale_exp))
+        if scale_exp == "int":          # the same integers handed over with an integer dtype
+            self.M0 = base_matrix(n, kind).astype(np.int64)
         self.merge_pairs = merge_pairs
         self.alphabet = alphabet
         singles = list(all_subsets(n, 2, n))
@@ -212,7 +214,7 @@ class LumpSystem:
         hist = st["hist"] + [ev]
         case = {"n": self.n, "kind": self.kind, "history": hist, "scale_exp": self.scale_exp}
         hs = hist_str(hist)
-        pre = f"C13|n={self.n}|base={self.kind}" + (f"|scale=2^{self.scale_exp}" if self.scale_exp else "") + f"|hist={hs}"
+        pre = f"C13|n={self.n}|base={self.kind}" + (("|dtype=int64" if self.scale_exp == "int" else f"|scale=2^{self.scale_exp}") if self.scale_exp else "") + f"|hist={hs}"
         vs = []
         # model step
         if ev["op"] == "merge":
@@ -469,9 +471,9 @@ def run(ctx):
     exhaustive = True
     distinct_obs = 0
     plan = [(4, "asym", 3, True, 0), (4, "sym", 2, True, 0), (5, "asym", 2, False, 0), (4, "asym", 2, False, -34),
-            (4, "sym", 2, False, 27)] if not ctx.thorough else \
+            (4, "sym", 2, False, 27), (4, "asym", 2, False, "int")] if not ctx.thorough else \
            [(4, "asym", 3, True, 0), (4, "sym", 3, True, 0), (5, "asym", 3, False, 0), (5, "sym", 2, True, 0),
-            (6, "asym", 2, False, 0), (4, "asym", 3, False, -34), (5, "sym", 2, False, 27), (5, "asym", 2, False, -60)]
+            (6, "asym", 2, False, 0), (4, "asym", 3, False, -34), (5, "sym", 2, False, 27), (5, "asym", 2, False, -60), (5, "sym", 2, False, "int"), (4, "asym", 3, False, "int")]
     for n, kind, depth, pairs, sexp in plan:
         sysm = LumpSystem(n, kind, merge_pairs=pairs, scale_exp=sexp)
         r = explorer.bfs(ctx, sysm, depth=depth)
@@ -480,7 +482,7 @@ def run(ctx):
         distinct_obs += r["distinct_observations"]
         rep.add_violations(r["violations"])
         samples.extend(hist_str(h) for h in r["samples"][:2])
-        bounds.append({"n": n, "base": kind, "depth": depth, "merge_pairs": pairs, "scale": f"2^{sexp}", "events_per_state": len(sysm._events),
+        bounds.append({"n": n, "base": kind, "depth": depth, "merge_pairs": pairs, "scale": "int64 dtype" if sexp == "int" else f"2^{sexp}", "events_per_state": len(sysm._events),
                        "states": r["states"], "transitions": r["transitions"], "capped": r["capped"]})
         exhaustive &= not r["capped"]
         ctx.log(f"  C13 bfs n={n} base={kind} depth={depth}: states={r['states']} transitions={r['transitions']} "
